@@ -23,6 +23,7 @@ CONSTANTS User,        \* set of strings
           BaseFees, MinFees,  \* arguments relayers may choose for RequestBatch
           InitBal,     \* initial holding of every user
           KB, KC,      \* batch / bridge-call timeout in external blocks (params)
+          Entries,     \* entry points for send/cancel: subset of {"msg", "evm"} (Cosmos message / precompile in an EVM transaction)
           FeeOps       \* whether increase-fee operations are in the alphabet (the entry point is dead for non-FX pairs on this tree)
 
 VARIABLES bal,      \* [User -> Nat] holdings of the token on fxcore (all representations)
@@ -92,8 +93,8 @@ Timeout(k) == obsExt + (fxH - obsFx) + k     \* CalExternalTimeoutHeight with eq
 ---------------------------------------------------------------------------
 (* fxcore user operations *)
 
-SendToExternal(u, a, f) ==
-  LET this == Op("Send", u, 0, a, f, None, "ok")
+SendToExternal(u, a, f, e) ==
+  LET this == Op("Send", u, 0, a, f, e, "ok")
   IN IF bal[u] < a + f THEN Rej(this) ELSE
      /\ bal' = [bal EXCEPT ![u] = @ - (a + f)]
      /\ ntx' = ntx + 1
@@ -101,8 +102,8 @@ SendToExternal(u, a, f) ==
      /\ op' = this
      /\ UNCHANGED <<bt, cl, nbt, ncl, fxH, obsExt, obsFx, lastObs, parked, extH, queue, xbt, xlast, xcl, cobs, ndep, obsDep, obsOut, extIn, extOut>>
 
-Cancel(u, i) ==
-  LET this == Op("Cancel", u, i, 0, 0, None, "ok")
+Cancel(u, i, e) ==
+  LET this == Op("Cancel", u, i, 0, 0, e, "ok")
   IN IF ~(tx[i].st = "pool" /\ tx[i].u = u) THEN Rej(this) ELSE
      /\ bal' = [bal EXCEPT ![u] = @ + tx[i].amt + tx[i].fee]
      /\ tx' = [tx EXCEPT ![i] = [NoTx EXCEPT !.st = "gone"]]
@@ -256,8 +257,8 @@ ExecuteClaim(n) ==
 Probe == op' = Op("Probe", None, 0, 0, 0, None, "ok") /\ UNCHANGED svars
 
 Next ==
-  \/ \E u \in User, a \in Amt, f \in Fee : SendToExternal(u, a, f)
-  \/ \E u \in User, i \in 1..MaxTx : Cancel(u, i)
+  \/ \E u \in User, a \in Amt, f \in Fee, e \in Entries : SendToExternal(u, a, f, e)
+  \/ \E u \in User, i \in 1..MaxTx, e \in Entries : Cancel(u, i, e)
   \/ (FeeOps /\ \E u \in User, i \in 1..MaxTx : IncreaseFee(u, i, 1) \/ IncreaseFeeOther(u, i, 1))
   \/ \E b \in BaseFees, m \in MinFees : RequestBatch(b, m)
   \/ \E u \in User, a \in Amt : BridgeCall(u, a)
@@ -272,8 +273,8 @@ Next ==
 Spec == Init /\ [][Next]_vars
 
 Do(e) ==
-  CASE e.name = "Send"         -> SendToExternal(e.u, e.a, e.f)
-    [] e.name = "Cancel"       -> Cancel(e.u, e.id)
+  CASE e.name = "Send"         -> SendToExternal(e.u, e.a, e.f, e.e)
+    [] e.name = "Cancel"       -> Cancel(e.u, e.id, e.e)
     [] e.name = "IncreaseFee"  -> IF e.e = "other" THEN IncreaseFeeOther(e.u, e.id, e.f) ELSE IncreaseFee(e.u, e.id, e.f)
     [] e.name = "RequestBatch" -> RequestBatch(e.a, e.f)
     [] e.name = "BridgeCall"   -> BridgeCall(e.u, e.a)
